@@ -51,8 +51,10 @@ type Ctx struct {
 	Level string // exploration | fault_enumeration
 	HR    string // binary built from /repo with -tags verif
 	HRAlt string // same, built with go1.26.8 ("" if unavailable)
-	Work  string // scratch directory, removed by the caller
-	Procs int
+	// HRRace: the program built with the race detector ("" if the check does not use it)
+	HRRace string
+	Work   string // scratch directory, removed by the caller
+	Procs  int
 
 	mu          sync.Mutex
 	start       time.Time
